@@ -134,6 +134,11 @@ func (x *exec) wantInline(fr *frame, fn *ssa.Function) bool {
 
 func (x *exec) staticCall(fr *frame, s *State, fn *ssa.Function, bind []*Val, args []*Val, sig *types.Signature, resT types.Type, pos token.Pos) *Val {
 	key := fn.String()
+	if key == historyAppendKey {
+		x.appendSite(fr, s, args, pos)
+		x.note("utils.History.Append: stores the pair, runs nothing now (its own behaviour is C20)")
+		return &Val{}
+	}
 	if isNoopCall(key) {
 		x.note("A-LOG/A-SEQ: %s modelled as effect-free", shortKey(key))
 		return x.zeroResult(resT)
@@ -173,7 +178,7 @@ func (x *exec) onStack(fn *ssa.Function) bool {
 func (x *exec) unknownCall(fr *frame, s *State, key string, args []*Val, resT types.Type, pos token.Pos) *Val {
 	x.note("unknown call: %s — heap havocked, results unconstrained, assumed not to panic", shortKey(key))
 	x.havocOrigins(s, args)
-	x.h.havocAll(s)
+	x.havocAll(s)
 	if resT == nil {
 		return &Val{}
 	}
@@ -292,11 +297,27 @@ func (x *exec) applyContract(fr *frame, s *State, con *Contract, sig *types.Sign
 	var res *Val
 	if con.Pure {
 		res = x.pureApp(key, con, sig, args, s)
-		if wf := x.wf(x.term(res), res.Typ); wf != "true" {
-			x.assume(s, wf)
+		parts := res.Tup
+		if parts == nil {
+			parts = []*Val{res}
+		}
+		for _, pv := range parts {
+			if wf := x.wf(x.term(pv), pv.Typ); wf != "true" {
+				x.assume(s, wf)
+			}
+			x.assume(s, x.aliveVal(s, pv))
 		}
 	} else {
 		x.applyModifies(s, con, env, args)
+		// the callee may allocate: the set of live objects can only grow
+		if _, ok := s.heap["alive"]; ok || true {
+			a0 := x.h.get(s, "alive", "(Array Int Bool)")
+			a1 := x.c.FreshConst("alive", "(Array Int Bool)")
+			q := x.c.Fresh("r")
+			x.c.Axiom([]string{a1}, fmt.Sprintf("(forall ((%s Int)) (! (=> (select %s %s) (select %s %s)) :pattern ((select %s %s))))", q, a0, q, a1, q, a1, q))
+			s.heap["alive"] = a1
+			x.reassertAlive(s)
+		}
 		if resT != nil {
 			res = x.freshVal("ret."+short, resT, s)
 		} else {
@@ -343,13 +364,13 @@ func (x *exec) applyModifies(s *State, con *Contract, env *Env, args []*Val) {
 			return
 		}
 		x.havocOrigins(s, args)
-		x.h.havocAll(s)
+		x.havocAll(s)
 		return
 	}
 	for _, m := range con.Modifies {
 		if m.Text == "*" {
 			x.havocOrigins(s, args)
-			x.h.havocAll(s)
+			x.havocAll(s)
 			return
 		}
 	}
